@@ -7,11 +7,11 @@ package ast
 // ---- C08: every DeepCopy preserves every field (one obligation per field, generated from go/types) ----
 
 //@ fields_copied (*Task).DeepCopy                 [C08,C09,C10,C11]
-//@ fields_copied (*Cmd).DeepCopy                  [C08]
-//@ fields_copied (*Dep).DeepCopy                  [C08]
-//@ fields_copied (*For).DeepCopy                  [C08]
+//@ fields_copied (*Cmd).DeepCopy                  [C08,C11,C18]
+//@ fields_copied (*Dep).DeepCopy                  [C08,C11,C18]
+//@ fields_copied (*For).DeepCopy                  [C08,C11,C18]
 //@ fields_copied (*Location).DeepCopy             [C08]
-//@ fields_copied (*Precondition).DeepCopy         [C08]
+//@ fields_copied (*Precondition).DeepCopy         [C08,C11,C18]
 //@ fields_copied (*Platform).DeepCopy             [C08]
 //@ fields_copied (*Requires).DeepCopy             [C08]
 //@ fields_copied (*VarsWithValidation).DeepCopy   [C08]
@@ -19,7 +19,7 @@ package ast
 //@ fields_copied (*Vars).DeepCopy                 [C08,C09,C10,C11]
 
 //@   skipfield mutex a copy gets its own, unlocked mutex
-//@ fields_copied (*Matrix).DeepCopy               [C08]
+//@ fields_copied (*Matrix).DeepCopy               [C08,C11,C18]
 //@ fields_copied *                                [C08,C05]   -- any other DeepCopy method of this package, present or future
 
 // ---- decoders: what the YAML document says is what the object holds -----------------------------------------
@@ -37,6 +37,10 @@ package ast
 //@   skipfield Tasks an absent section becomes an empty one
 //@ fields_decoded (*Dep).UnmarshalYAML taskCall                   [C01,C08,C10]
 //@ fields_decoded (*Include).UnmarshalYAML includedTaskfile       [C08,C10]
+//@ fields_decoded (*VarsWithValidation).UnmarshalYAML vv           [C13]
+//@ fields_decoded (*Glob).UnmarshalYAML glob                      [C04,C05]
+//@ fields_decoded (*Precondition).UnmarshalYAML sh                [C13]
+//@   skipfield Msg a precondition without a message gets the default one ("<sh> failed")
 
 
 // every task that comes out of the decoder carries its location (Tasks.UnmarshalYAML sets it for each entry, DeepCopy
@@ -102,6 +106,9 @@ package ast
 // include that chose a style from one that did not, and how the executor falls back to its own default. The decoder
 // takes the decoded style over as it is and fills in nothing
 //@   nosite store:Output.*                                         [C17]
+// a decoded Taskfile has all four of its collections, whatever the document said about them (absent, null, empty):
+// merging dereferences the tasks, variables and includes of an INCLUDED file without a test
+//@   ensures result == nil ==> tf.Tasks != nil && tf.Vars != nil && tf.Env != nil && tf.Includes != nil   [C16,C08]
 //@ func (*Tasks).UnmarshalYAML
 //@   sweep                                                         [C16]
 //@   loop 1 invariant 0 <= i && i % 2 == 0                         [C16]
@@ -109,7 +116,10 @@ package ast
 //@   sweep                                                         [C16]
 //@ func (*Vars).UnmarshalYAML
 //@   sweep                                                         [C16]
-//@   loop 1 invariant 0 <= i && i % 2 == 0                         [C16]
+// a decoded vars / env section - also an EMPTY one (vars: {}) - has its map: Vars.Merge returns silently when the
+// receiver has none, and the variables of the command line (NAME=value, CLI_ARGS, ...) are merged into this object
+//@   ensures result == nil ==> vs.om != nil                        [C19,C10]
+//@   loop 1 invariant 0 <= i && i % 2 == 0 && vs.om != nil         [C16,C19,C10]
 //@ func (*Platform).parsePlatform
 //@   sweep                                                         [C16]
 
